@@ -754,6 +754,9 @@ def check(ctx):
     ctx.inst('R9', ff, 'finish', 'self.cf.remove_port_callback(self.port, self._new_packet_cb)' in body and body[-1] == 'self.finished_callback()',
              'finishing unregisters the packet callback and calls the completion callback last')
     fetcher_unsubscribe_rules(ctx, 'R9')
+    from .c07 import caller_rules, removal_predicate_rules
+    caller_rules(ctx, 'R9')              # ... and its `disconnected` hook is reached although an earlier listener un-registers itself during the call (shared with C07.R2)
+    removal_predicate_rules(ctx, 'R9')   # ... and the un-registration of its packet callback (a bound method) finds it: == not `is` (shared with C07.R4)
     rt = m.func(PAR, 'Param.refresh_toc')
     rd = rt.nested('refresh_done')
     g4 = cfg_of(rd)
